@@ -344,3 +344,85 @@ func RRepID(c *core.Ctx) {
 		c.Anchor("successful returns of the Replace family")
 	}
 }
+
+// ---------------------------------------------------------------------------
+// R-COMMITPOS: longest-valid-prefix scanning commits number and position
+// together.  ECMAScript `$nn` reads digits as long as they still name a group:
+// each time the longer number is accepted (`if p.isCaptureSlot(n) { cap = n }`)
+// the position after it has to be remembered as well, because the scanner
+// rewinds to the remembered position afterwards.  Accepting the number without
+// the position makes the accepted digits appear a second time as literal text.
+// ---------------------------------------------------------------------------
+
+func RCommitPos(c *core.Ctx) {
+	c.Rule("R-COMMITPOS", "in package syntax every block guarded by `p.isCaptureSlot(X)` that commits the candidate (assigns X to another variable) also records the scan position (an assignment from p.textpos()) whenever the function later rewinds with p.textto(<that variable>): number and end position are committed together", 2)
+	p := c.P
+	syn := p.Pkg("syntax")
+	info := syn.TypesInfo
+	isSlot := p.LookupFunc("syntax", "parser.isCaptureSlot")
+	textpos := p.LookupFunc("syntax", "parser.textpos")
+	textto := p.LookupFunc("syntax", "parser.textto")
+	if isSlot == nil || textpos == nil || textto == nil {
+		c.Anchor("parser.isCaptureSlot / textpos / textto")
+		return
+	}
+	n := 0
+	for _, fd := range p.FuncDecls(syn) {
+		if fd.Body == nil || p.IsTestFile(fd.Pos()) {
+			continue
+		}
+		// variables the function rewinds to
+		rewind := map[types.Object]bool{}
+		for _, call := range core.CallsIn(info, fd.Body, textto) {
+			if id, ok := ast.Unparen(call.Args[0]).(*ast.Ident); ok {
+				rewind[info.ObjectOf(id)] = true
+			}
+		}
+		if len(rewind) == 0 {
+			continue
+		}
+		name := core.DeclName(syn, fd)
+		cnt := 0
+		ast.Inspect(fd.Body, func(x ast.Node) bool {
+			ifs, ok := x.(*ast.IfStmt)
+			if !ok {
+				return true
+			}
+			call, ok := ast.Unparen(ifs.Cond).(*ast.CallExpr)
+			if !ok || core.Callee(info, call) != isSlot || len(call.Args) != 1 {
+				return true
+			}
+			cand, ok := ast.Unparen(call.Args[0]).(*ast.Ident)
+			if !ok {
+				return true
+			}
+			commits, records := false, false
+			for _, st := range ifs.Body.List {
+				as, ok := st.(*ast.AssignStmt)
+				if !ok || len(as.Lhs) != 1 || len(as.Rhs) != 1 {
+					continue
+				}
+				if id, ok := ast.Unparen(as.Rhs[0]).(*ast.Ident); ok && info.ObjectOf(id) == info.ObjectOf(cand) {
+					commits = true
+				}
+				if c2, ok := ast.Unparen(as.Rhs[0]).(*ast.CallExpr); ok && core.Callee(info, c2) == textpos {
+					if id, ok := as.Lhs[0].(*ast.Ident); ok && rewind[info.ObjectOf(id)] {
+						records = true
+					}
+				}
+			}
+			if !commits {
+				return true
+			}
+			cnt++
+			n++
+			c.Visit(name)
+			c.Check(records, fmt.Sprintf("%s / commit #%d of a longer group number also records the position", name, cnt), ifs.Pos(),
+				"%s is accepted as the group number but the position after it is not saved; the function rewinds with textto() to the last saved position, so the digits just accepted are scanned again as literal text", cand.Name)
+			return true
+		})
+	}
+	if n == 0 {
+		c.Anchor("blocks that commit a candidate group number under isCaptureSlot")
+	}
+}
